@@ -1166,6 +1166,23 @@ func c01Excluded(tc l4Case, f *syntax.File, sh *shape) string {
 	}) {
 		return "C01-heredoc-pipe-test-let"
 	}
+	// C01-binnext-heredoc-nested: the BinaryNextLine face of the buried here-document: with a body
+	// pending, BinaryNextLine keeps the right operand on the operator's line, and the first newline
+	// is then inside the operand's ( ), $( ), <( ), case, [[ ]] or let.
+	if o.BinNext && sh.any(func(n syntax.Node) bool {
+		b, ok := n.(*syntax.BinaryCmd)
+		if !ok || !hasHeredoc(b.X) {
+			return false
+		}
+		for _, t := range []string{"Subshell", "CmdSubst", "ProcSubst", "CaseClause", "TestClause", "LetClause"} {
+			if containsType(b.Y, t) {
+				return true
+			}
+		}
+		return false
+	}) {
+		return "C01-binnext-heredoc-nested"
+	}
 	// C01-dashhdoc-escaped-newline: an escaped newline inside the body of an unquoted <<-
 	// here-document is re-created by the printer, and with tab indentation the continuation line
 	// is indented with tabs that are not stripped (they are not at the start of a logical line).
